@@ -7,14 +7,20 @@ import (
 	"math"
 	"strconv"
 	"strings"
+	"sync"
 
 	logging "gopkg.in/op/go-logging.v1"
 )
 
 var ExpressionParser ExpressionParserInterface
 
+var expressionParserLock sync.Mutex
+
 func InitExpressionParser() {
 	verifYield("InitExpressionParser")
+	// evaluators may be created from several goroutines
+	expressionParserLock.Lock()
+	defer expressionParserLock.Unlock()
 	if ExpressionParser == nil {
 		ExpressionParser = newExpressionParser()
 	}
